@@ -62,6 +62,17 @@ def source(tok):
         body = f"""let mut w = World::<Registry!(A, B)>::new(); w.insert(entity!(A(1), B(2)));
     let r = w.query(Query::<Views!({v(t[1], 'A')}), filter::None, Views!(), Views!({v(t[2], other)})>::new());
     keep(r.iter); keep(r.entries);"""
+    elif k == "views2id":
+        other = "A" if t[3] == "same" else "B"
+        body = f"""let mut w = World::<Registry!(A, B)>::new(); w.insert(entity!(A(1), B(2)));
+    for result!(i, x, y) in w.query(Query::<Views!(entity::Identifier, {v(t[1], 'A')}, {v(t[2], other)})>::new()).iter {{ keep((i, x, y)); }}"""
+    elif k == "entryviewsid":
+        other = "A" if t[4] == "same" else "B"
+        vs = f"entity::Identifier, {v(t[2], 'A')}" if t[1] == "v" else v(t[2], 'A')
+        es = f"entity::Identifier, {v(t[3], other)}" if t[1] == "e" else v(t[3], other)
+        body = f"""let mut w = World::<Registry!(A, B)>::new(); w.insert(entity!(A(1), B(2)));
+    let r = w.query(Query::<Views!({vs}), filter::None, Views!(), Views!({es})>::new());
+    keep(r.iter); keep(r.entries);"""
     elif k == "subview":
         body = f"""let mut w = World::<Registry!(A, B)>::new(); let id = w.insert(entity!(A(1), B(2)));
     let mut r = w.query(Query::<Views!(), filter::None, Views!(), Views!({v(t[2], 'A')})>::new());
